@@ -764,6 +764,16 @@ func (p *Prog) longEnough(v ssa.Value, need int64, at ssa.Instruction, depth int
 		if k, ok := constInt(x.Len); ok && k >= need {
 			return "made with a constant length"
 		}
+		// make([]T, len(a)+k): a length (never negative) plus a constant
+		if bo, ok := x.Len.(*ssa.BinOp); ok && bo.Op == token.ADD {
+			for _, pair := range [][2]ssa.Value{{bo.X, bo.Y}, {bo.Y, bo.X}} {
+				if k, isK := constInt(pair[1]); isK && k >= need {
+					if isCallNamed(pair[0], "builtin.len") != nil || isCallNamed(pair[0], "builtin.cap") != nil {
+						return "made with a length of len(…) plus a constant"
+					}
+				}
+			}
+		}
 	case *ssa.Phi:
 		all := "every alternative is long enough"
 		for i, e := range x.Edges {
